@@ -1,15 +1,114 @@
 (* C10 — TPS text and positions round-trip without loss.
-   Only statements, `exact`, and Print Assumptions live here. *)
-From Coq Require Import NArith ZArith List Bool.
-Require Import Board Move GameOver PtnMove Playtak Tps TpsFacts.
+   Only statements, `exact`, and Print Assumptions live here.  Proofs: TpsFacts.v, TpsFacts2.v .. TpsFacts8.v.
+
+   Vocabulary (all defined in those files, none of them in the model files):
+     at_sq p i            Position.At: the stack on square i, top piece first (model, Tps.v)
+     same_squares p q     At agrees on every square i < size*size
+     bytes_ok p           the machine types: every Height entry < 256 (uint8), every Stacks entry < 2^64 (uint64)
+     rep_ok basis p       the canonical representation (DESIGN 3.2 `wf` without reserves/groups; decidable):
+                          list lengths, bitboards inside the board mask, Height = 0 iff no colour bit, colours
+                          exclusive, Standing/Caps exclusive and only on occupied squares, stack word < 2^(Height-1),
+                          hash = the from-scratch hash
+     on_board f p         number of pieces of class f (white/black stone/capstone) on p's board, read through At
+     reserves_match_board p   the four reserve counters = default counts of the size - on_board, without underflow
+     dec8 a k             a uint8 decremented k times (wraps)
+     render_tps board mv  the TPS grammar as a function of a board (rows of squares) and a ply: maximal runs of
+                          empties as x / x<k>, stacks bottom-up as 1/2 with S/C for the top, rows top first
+     canonical_tps s      s = render_tps board mv for a 3..8 board of At-shaped squares (heights < 256, no black
+                          piece deeper than the 64-bit stack word) and 0 <= mv < 2^63 *)
+From Coq Require Import NArith ZArith List Bool Ascii String.
+Require Import Board Move GameOver PtnMove Playtak Tps TpsFacts TpsFacts2 TpsFacts3 TpsFacts4 TpsFacts5 TpsFacts6 TpsFacts7 TpsFacts8.
 Import ListNotations.
 
-(* First layer of the round trip: the text tpsSquare writes for one square parses back, through the stack
-   branch of parseRow, to exactly that square - for every well-formed square (non-empty, a top of any kind,
-   only flats below; any height).
-   C10_partial: the row layer (maximal runs x / x2..x8), the board layer (FromSquares o At = identity on
-   well-formed positions, with equal hash and reserves) and tps_parse_format for canonical strings are decided
-   by the correspondence + oracle for now (DESIGN 5.10). *)
+(* Square layer: the text tpsSquare writes for one square parses back, through the stack branch of parseRow, to
+   exactly that square - for every well-formed square (non-empty, a top of any kind, only flats below; any height).
+   (Kept under its first name; it is a lemma of the full theorems below, no longer the whole result.) *)
 Theorem C10_cell_roundtrip_partial : forall sq, wf_square sq -> parse_cell (tps_square sq) = Move.Ok [sq].
 Proof. exact cell_roundtrip. Qed.
 Print Assumptions C10_cell_roundtrip_partial.
+
+(* Row layer: parseRow of the comma-joined tpsRow gives back exactly what At reads along row y - maximal empty
+   runs written x, x2 .. x9 are read back as that many empties.  Holds for sizes 1..9: the reader takes ONE count byte. *)
+Theorem C10_row_roundtrip : forall p y, (1 <= N.to_nat (size p) <= 9)%nat ->
+  parse_row (join (B ","%char) (tps_row (S (N.to_nat (size p))) p y 0)) = Move.Ok (row_of p y).
+Proof. exact row_roundtrip. Qed.
+Print Assumptions C10_row_roundtrip.
+
+(* Board layer: splitting the board text at "/" and parsing the rows (written top row first, accumulated in reverse)
+   gives the rows bottom-up, i.e. squares in index order x + y*size. *)
+Theorem C10_board_roundtrip : forall p, (1 <= N.to_nat (size p) <= 9)%nat ->
+  parse_rows (split_on (B "/"%char) (board_text p) []) [] = Move.Ok (board_of p).
+Proof. exact board_roundtrip. Qed.
+Print Assumptions C10_board_roundtrip.
+
+(* Numbers: strconv.Atoi inverts %d on the whole non-negative int64 range, and ParseTPS's
+   2*(number-1)+(turn-1) (computed in int64) inverts FormatTPS's (move/2+1, parity). *)
+Theorem C10_atoi_fmt_int : forall z, (0 <= z < 2 ^ 63)%Z -> atoi (fmt_int z) = Some z.
+Proof. exact atoi_fmt_int. Qed.
+Print Assumptions C10_atoi_fmt_int.
+
+Theorem C10_move_number_inverts : forall mv, (0 <= mv < 2 ^ 63)%Z ->
+  wrap64 (2 * ((Z.quot mv 2 + 1) - 1) + ((if Z.even mv then 1 else 2) - 1))%Z = mv.
+Proof. exact move_number_inverts. Qed.
+Print Assumptions C10_move_number_inverts.
+
+(* tps_format_parse, general form.  For EVERY position value of size 3..8 with 0 <= move (no well-formedness
+   of the bitboards needed, only the machine types of Height/Stacks): ParseTPS accepts FormatTPS's text and the
+   result shows the same squares through At, the same ply and side to move, carries the from-scratch hash, and its
+   reserves are the default counts less the pieces on the board (uint8 arithmetic); if p's reserves match its board
+   the four reserves agree. *)
+Theorem C10_tps_format_parse : forall basis p, (3 <= size p <= 8)%N -> (0 <= Move.move p < 2 ^ 63)%Z -> bytes_ok p ->
+  exists q, parse_tps basis (format_tps p) = Move.Ok q
+    /\ size q = size p /\ Move.move q = Move.move p /\ to_move_white q = to_move_white p /\ black_wins_ties q = false
+    /\ same_squares p q
+    /\ hash q = scratch_hash basis q
+    /\ whiteStones q = dec8 (dflt_pieces p) (on_board is_ws p) /\ whiteCaps q = dec8 (dflt_caps p) (on_board is_wc p)
+    /\ blackStones q = dec8 (dflt_pieces p) (on_board is_bs p) /\ blackCaps q = dec8 (dflt_caps p) (on_board is_bc p)
+    /\ (reserves_match_board p ->
+        whiteStones q = whiteStones p /\ whiteCaps q = whiteCaps p /\ blackStones q = blackStones p /\ blackCaps q = blackCaps p).
+Proof. exact tps_format_parse. Qed.
+Print Assumptions C10_tps_format_parse.
+
+(* tps_format_parse, the statement of DESIGN 5.10 (first sentence of the property).  On a canonically represented
+   position whose reserves match its board, the parsed position IS p with black_wins_ties cleared: Equal both ways,
+   the same Hash, reserves, side to move and ply. *)
+Theorem C10_tps_format_parse_equal : forall basis p,
+  (3 <= size p <= 8)%N -> (0 <= Move.move p < 2 ^ 63)%Z -> rep_ok basis p -> reserves_match_board p ->
+  exists q, parse_tps basis (format_tps p) = Move.Ok q
+    /\ q = {| size := size p; black_wins_ties := false;
+              whiteStones := whiteStones p; whiteCaps := whiteCaps p; blackStones := blackStones p; blackCaps := blackCaps p;
+              Move.move := Move.move p; White := White p; Black := Black p; Standing := Standing p; Caps := Caps p;
+              Height := Height p; Stacks := Stacks p; hash := hash p |}
+    /\ equal p q = true /\ equal q p = true /\ hash_of q = hash_of p
+    /\ to_move_white q = to_move_white p /\ Move.move q = Move.move p.
+Proof. exact tps_format_parse_equal. Qed.
+Print Assumptions C10_tps_format_parse_equal.
+
+(* FormatTPS reads a position only through Size, At and the ply: it is the grammar rendering of the squares. *)
+Theorem C10_format_render : forall p, format_tps p = render_tps (board_of p) (Move.move p).
+Proof. exact format_render. Qed.
+Print Assumptions C10_format_render.
+
+(* tps_parse_format (second sentence of the property): every canonical string parses, and formatting the result
+   reproduces the string.  No hypothesis on piece counts: the reserve counters may wrap, the text does not care. *)
+Theorem C10_tps_parse_format : forall basis s, canonical_tps s ->
+  exists q, parse_tps basis s = Move.Ok q /\ format_tps q = s.
+Proof. exact tps_parse_format. Qed.
+Print Assumptions C10_tps_parse_format.
+
+(* Format o Parse o Format = Format, for every position value of size 3..8 with 0 <= move. *)
+Theorem C10_format_parse_format : forall basis p, (3 <= size p <= 8)%N -> (0 <= Move.move p < 2 ^ 63)%Z -> bytes_ok p ->
+  exists q, parse_tps basis (format_tps p) = Move.Ok q /\ format_tps q = format_tps p.
+Proof. exact format_parse_format. Qed.
+Print Assumptions C10_format_parse_format.
+
+(* Non-vacuity: a 5x5 position with a seven-high stack under a black capstone, a white wall on a black flat, a lone
+   white capstone and empty runs of every length 1..5 satisfies all hypotheses above; its text is canonical. *)
+Theorem C10_nonvacuous : forall basis,
+  (3 <= size (ex_p basis) <= 8)%N /\ (0 <= Move.move (ex_p basis) < 2 ^ 63)%Z /\ rep_ok basis (ex_p basis) /\
+  reserves_match_board (ex_p basis) /\ bytes_ok (ex_p basis) /\
+  at_sq (ex_p basis) 6 = [P true 3; P false 1; P true 1; P true 1; P false 1; P false 1; P true 1] /\
+  format_tps (ex_p basis) = bytes_of "x4,2/x5/x2,21S,x2/x,2112212C,x3/1,x2,1C,x 2 7" /\
+  canonical_tps (bytes_of "x4,2/x5/x2,21S,x2/x,2112212C,x3/1,x2,1C,x 2 7").
+Proof. exact ex_all. Qed.
+Print Assumptions C10_nonvacuous.
